@@ -662,6 +662,9 @@ func (x *Exec) loopContract(n ast.Node, varName string) (*LoopContract, int) {
 	if lc == nil {
 		x.unsupported(n, "loop %d of %s has no invariant", ord, fr.key)
 	}
+	if a, ok := x.aliasOf(lc.Var); ok && a == varName {
+		return lc, ord
+	}
 	if lc.Var != "" && varName != "" && lc.Var != varName {
 		x.unsupported(n, "anchor-mismatch: loop %d of %s iterates over %q, contract expects %q", ord, fr.key, varName, lc.Var)
 	}
